@@ -14,17 +14,34 @@ VERIF = os.path.dirname(os.path.dirname(os.path.abspath(__file__)))
 def main():
     patch = os.path.abspath(sys.argv[1])
     props = [a.upper() for a in sys.argv[2:]] or ["C%02d" % i for i in range(1, 21)]
-    st = subprocess.run(["git", "-C", "/repo", "status", "--porcelain", "--untracked-files=no"], capture_output=True, text=True).stdout.strip()
-    if st:
-        print("REFUSING: /repo has uncommitted changes:\n" + st)
-        return 2
-    r = subprocess.run(["git", "-C", "/repo", "apply", patch], capture_output=True, text=True)
-    if r.returncode:
-        print("patch does not apply:", r.stderr[:500])
-        return 2
+    # by default the patch is applied to a SCRATCH COPY of /repo's sources (CATII_REPO points the checks at it), so that
+    # several tools can run at once; TRY_IN_REPO=1 applies it to /repo itself (git apply ... git checkout -- .)
+    in_repo = bool(os.environ.get("TRY_IN_REPO"))
+    copy = None
+    if in_repo:
+        st = subprocess.run(["git", "-C", "/repo", "status", "--porcelain", "--untracked-files=no"], capture_output=True, text=True).stdout.strip()
+        if st:
+            print("REFUSING: /repo has uncommitted changes:\n" + st)
+            return 2
+        r = subprocess.run(["git", "-C", "/repo", "apply", patch], capture_output=True, text=True)
+        if r.returncode:
+            print("patch does not apply:", r.stderr[:500])
+            return 2
+    else:
+        sys.path.insert(0, VERIF)
+        from selftest.mutate import make_copy
+        copy = make_copy([])
+        r = subprocess.run(["patch", "-p1", "-s", "-d", copy, "-i", patch], capture_output=True, text=True)
+        if r.returncode:
+            print("patch does not apply:", (r.stdout + r.stderr)[:500])
+            shutil.rmtree(copy, ignore_errors=True)
+            return 2
     scratch = tempfile.mkdtemp(prefix="catii-try-")
     try:
         env = dict(os.environ, VERIF_EVIDENCE_DIR=scratch)
+        if copy is not None:
+            env["CATII_REPO"] = copy
+            env["VERIF_NO_SELFTEST"] = "1"
 
         def run(p):
             q = subprocess.run(["/venv/bin/python", os.path.join(VERIF, "checks", p.lower() + ".py"), "--tier", "quick"], capture_output=True, text=True, env=env, cwd=VERIF, timeout=600)
@@ -43,7 +60,10 @@ def main():
                 fired.append(p)
         print("FIRED:", " ".join(fired) or "none")
     finally:
-        subprocess.run(["git", "-C", "/repo", "checkout", "--", "."])
+        if in_repo:
+            subprocess.run(["git", "-C", "/repo", "checkout", "--", "."])
+        if copy is not None:
+            shutil.rmtree(copy, ignore_errors=True)
         shutil.rmtree(scratch, ignore_errors=True)
     return 0
 
